@@ -354,8 +354,41 @@ def _accumulate_loops(tree):
     return tree
 
 
+def _stored_names(stmts):
+    return {n.id for s in stmts for n in ast.walk(s) if isinstance(n, ast.Name) and isinstance(n.ctx, (ast.Store, ast.Del))}
+
+
+def _loops_over_generators(tree):
+    """N12: `for T in (ELT for GT in IT if C): BODY` is `for GT in IT:` + guard `if not C: continue` + `T = ELT` + BODY (a generator expression is
+    consumed lazily, so the interleaving is the same).  When T and ELT are plain names / equally long tuples of plain names that BODY does
+    not re-bind, BODY simply reads the ELT names."""
+    for node in ast.walk(tree):
+        if not (isinstance(node, ast.For) and isinstance(node.iter, ast.GeneratorExp) and len(node.iter.generators) == 1 and not node.iter.generators[0].is_async):
+            continue
+        g, elt, T = node.iter.generators[0], node.iter.elt, node.target
+        if any(isinstance(n, (ast.Yield, ast.YieldFrom, ast.Await, ast.NamedExpr)) for n in ast.walk(node.iter)):
+            continue
+        guards = [ast.copy_location(ast.If(test=_test(ast.copy_location(ast.UnaryOp(op=ast.Not(), operand=c), c)), body=[ast.copy_location(ast.Continue(), c)], orelse=[]), c)
+                  for c in g.ifs]
+        ts = T.elts if isinstance(T, ast.Tuple) else [T]
+        es = elt.elts if isinstance(T, ast.Tuple) and isinstance(elt, ast.Tuple) else [elt]
+        stored = _stored_names(node.body)
+        gen_names = {n.id for n in ast.walk(g.target) if isinstance(n, ast.Name)}
+        if len(ts) == len(es) and all(isinstance(x, ast.Name) for x in ts + es) and len({x.id for x in ts}) == len(ts) \
+                and not ({x.id for x in ts} | {x.id for x in es}) & stored and not ({x.id for x in ts} & gen_names):
+            body = node.body
+            for t_, e_ in zip(ts, es):
+                body = [_SubstName(t_.id, e_).visit(s_) for s_ in body]
+            node.body = guards + body
+        else:
+            node.body = guards + [ast.copy_location(ast.Assign(targets=[T], value=elt), node)] + node.body
+        node.target, node.iter = g.target, g.iter
+    return tree
+
+
 def normalise(tree: ast.AST) -> ast.AST:
     tree = Normalise().visit(tree)
+    tree = _loops_over_generators(tree)
     tree = _accumulate_loops(tree)
     tree = _defaultdict_groups(tree)
     tree = _unpack_of_literal_map(tree)
